@@ -12,6 +12,8 @@ pub const F_NO_URING: u32 = 1;
 pub const F_FORCE_SYNC: u32 = 2;
 pub const F_FAST_POLL: u32 = 4;
 pub const F_FAST_SHUTDOWN: u32 = 8;
+/// reproducible hasher seeds: hash buckets and version-clock shards are a function of the key alone
+pub const F_FIXED_HASHER: u32 = 16;
 
 #[derive(Clone, Debug)]
 pub enum IoEv {
@@ -292,6 +294,7 @@ impl Handler for Session {
             "force_sync_io" => f & F_FORCE_SYNC != 0,
             "fast_poll" => f & F_FAST_POLL != 0,
             "fast_shutdown" => f & F_FAST_SHUTDOWN != 0,
+            "fixed_hasher" => f & F_FIXED_HASHER != 0,
             "uring_cqe_hidden" => self.fault.lock().uring_hidden,
             "uring_enter_intr" | "uring_enter_fail" | "uring_sq_full" | "uring_cqe_error" | "uring_cqe_short" => {
                 let mut f = self.fault.lock();
